@@ -412,12 +412,12 @@ def rule_e(ctx):
 def run(ctx):
     E = Effects(ctx.model)
     f, img_b, sem = rule_a(ctx)
-    rule_b(ctx, E, f, img_b, sem)
-    rule_c(ctx, f, img_b, sem)
-    rule_d(ctx)
-    rule_e(ctx)
-    rule_f(ctx, E)
-    rule_g(ctx, E)
+    ctx.guard(rule_b, ctx, E, f, img_b, sem)
+    ctx.guard(rule_c, ctx, f, img_b, sem)
+    ctx.guard(rule_d, ctx)
+    ctx.guard(rule_e, ctx)
+    ctx.guard(rule_f, ctx, E)
+    ctx.guard(rule_g, ctx, E)
     # BaseCorrection.__call__ visits range(image.time_num) slices: the series clause rests on Image keeping time_num = number of slices
     from . import c02
     from .common import shared
